@@ -13,13 +13,15 @@ structure Gate where
   conds : List String   -- dominating conditions, outermost first
   deriving Repr, DecidableEq
 
-/-- The gates of the source, in source order; reviewed by hand against tor/tor.go,
+/-- The gates of the source, in source order.  Canonical form: a local defined once by a
+    side-effect-free expression (nothing effectful between definition and use) is replaced by that
+    expression in conditions and recorded arguments; the negation of `!x` is written `x`; reviewed by hand against tor/tor.go,
     tor/initial.go, tor/torrents.go and peer/peer.go. -/
 def expectedGates : List Gate := [
   ⟨"tor.Torrent.announce", "config.ExternalPort", "false, ipv6", ["!(t.dhtMode <= config.DhtNone)", "!t.hasProxy() && t.dhtMode >= config.DhtNormal"]⟩,
   ⟨"tor.Torrent.announce", "dht.Announce", "t.Hash, ipv6, port", ["!(t.dhtMode <= config.DhtNone)"]⟩,
-  ⟨"tor.AddTorrent", "t.announce", "true", ["!(!added)"]⟩,
-  ⟨"tor.AddTorrent", "t.announce", "false", ["!(!added)"]⟩,
+  ⟨"tor.AddTorrent", "t.announce", "true", ["added"]⟩,
+  ⟨"tor.AddTorrent", "t.announce", "false", ["added"]⟩,
   ⟨"tor.Torrent.run", "t.announce", "true", ["case <-slowTicker.C", "time.Since(t.announceTime) > 28*time.Minute"]⟩,
   ⟨"tor.Torrent.run", "t.announce", "false", ["case <-slowTicker.C", "time.Since(t.announceTime) > 28*time.Minute"]⟩,
   ⟨"tor.Torrent.run", "trackerAnnounce", "ctx, t", ["case <-slowTicker.C", "t.useTrackers"]⟩,
@@ -28,8 +30,8 @@ def expectedGates : List Gate := [
   ⟨"tor.handleEvent", "t.announce", "false", ["case peer.TorSetConf", "announce"]⟩,
   ⟨"tor.periodicRequest", "maybeWebseed", "ctx, t, u, prio <= IdlePriority", ["!(t.infoComplete == 0)", "!(len(chunks) == 0 && len(unavailable) == 0)", "hasWebseeds(t)"]⟩,
   ⟨"tor.periodicRequest", "maybeWebseed", "ctx, t, c.index / cpp, c.prio <= IdlePriority", ["!(t.infoComplete == 0)", "!(len(chunks) == 0 && len(unavailable) == 0)", "!webseedDone && hasWebseeds(t)", "inFlight(t, c.index) == 0"]⟩,
-  ⟨"tor.maybeWebseed", "webseedGR", "ctx, ws, t, index, o, l", ["!(!hasWebseeds(t))", "!(ws == nil)", "case *webseed.GetRight"]⟩,
-  ⟨"tor.maybeWebseed", "webseedH", "ctx, ws, t, index, o, l", ["!(!hasWebseeds(t))", "!(ws == nil)", "case *webseed.Hoffman"]⟩,
+  ⟨"tor.maybeWebseed", "webseedGR", "ctx, ws, t, index, o, l", ["hasWebseeds(t)", "!(ws == nil)", "case *webseed.GetRight"]⟩,
+  ⟨"tor.maybeWebseed", "webseedH", "ctx, ws, t, index, o, l", ["hasWebseeds(t)", "!(ws == nil)", "case *webseed.Hoffman"]⟩,
   ⟨"tor.webseedGR", "ws.Get", "ctx, t.proxy, t.Name, fc.path, fc.filelength, fc.offset, fc.length, writer", ["!(fc.pad)"]⟩,
   ⟨"tor.webseedH", "ws.Get", "ctx, t.proxy, t.Hash, index, offset, length, w", []⟩,
   ⟨"tor.trackerAnnounce", "trackerAnnounceSingle", "ctx, t, tr", ["state == tracker.Ready"]⟩,
@@ -38,7 +40,7 @@ def expectedGates : List Gate := [
   ⟨"tor.trackerAnnounceSingle", "tr.Announce", "ctx, t.Hash, t.MyId, want, length, port4, port6, t.proxy, func", []⟩,
   ⟨"tor.Server", "protocol.ServerHandshake", "conn, infoHashes(false), cryptoOptions", ["!(!ok || !addr.IP.IsGlobalUnicast())", "!(ip == nil)"]⟩,
   ⟨"tor.Server", "infoHashes", "false", ["!(!ok || !addr.IP.IsGlobalUnicast())", "!(ip == nil)"]⟩,
-  ⟨"tor.Server", "t.NewPeer", "t.proxy, conn, netip.AddrPortFrom(ipp, 0), true, result, init", ["!(!ok || !addr.IP.IsGlobalUnicast())", "!(ip == nil)", "!(err != nil)", "!(t == nil)", "!(result.Id.Equal(t.MyId))", "!(t.hasProxy())", "!(err != nil)", "!(q != nil)", "!(!ok)"]⟩,
+  ⟨"tor.Server", "t.NewPeer", "t.proxy, conn, netip.AddrPortFrom(ipp, 0), true, result, init", ["!(!ok || !addr.IP.IsGlobalUnicast())", "!(ip == nil)", "!(err != nil)", "!(t == nil)", "!(result.Id.Equal(t.MyId))", "!(t.hasProxy())", "!(err != nil)", "!(q != nil)", "ok"]⟩,
   ⟨"tor.Client", "t.NewPeer", "proxy, conn, addr, false, result, init", ["!(err != nil)", "!(stats.NumPeers >= config.MaxPeersPerTorrent)", "!(err != nil)", "!(err != nil)", "!(result.Id.Equal(t.MyId))", "!(q != nil)"]⟩,
   ⟨"tor.infoHashes", "append", "pairs, hash.HashPair{h, t.MyId}", ["all || !t.hasProxy()"]⟩,
   ⟨"peer.Run", "protocol.Port", "", ["peer.canDHT && !hasProxy(peer)"]⟩,
@@ -47,7 +49,7 @@ def expectedGates : List Gate := [
   ⟨"peer.Run", "config.ExternalPort", "true, peer.IP.Is6()", ["peer.canExtended", "!hasProxy(peer)"]⟩,
   ⟨"peer.Run", "getIPv6", "", ["peer.canExtended", "!hasProxy(peer)"]⟩,
   ⟨"peer.Run", "protocol.Extended0", "Version=version, Port=port, IPv6=ipv6", ["peer.canExtended"]⟩,
-  ⟨"peer.handleMessage", "dht.Ping", "netip.AddrPortFrom( peer.IP, uint16(peer.Port), )", ["case protocol.Port", "peer.Port > 0"]⟩ ]
+  ⟨"peer.handleMessage", "dht.Ping", "netip.AddrPortFrom(peer.IP, uint16(peer.Port))", ["case protocol.Port", "peer.Port > 0"]⟩ ]
 
 def expectedHasWebseeds : String := "t.useWebseeds && len(t.webseeds) > 0"
 def expectedHasProxy : String := "t.proxy != \"\""
@@ -61,10 +63,10 @@ def expectedProxyRoutes : List Gate := [
   ⟨"httpclient.Get", "dialer.DialContext", "ctx, n, a", ["!(ok)"]⟩,
   ⟨"httpclient.Get", "Transport.Proxy return", "nil, nil", ["proxy == \"\""]⟩,
   ⟨"httpclient.Get", "Transport.Proxy return", "url.Parse(proxy)", ["!(proxy == \"\")"]⟩,
-  ⟨"tor.DialClient", "dialer.DialContext", "ctx, \"tcp\", addr.String()", ["!(!addr.Addr().IsGlobalUnicast())", "!(port == 0 || port == 1 || port == 22 || port == 25)", "t.proxy == \"\""]⟩,
-  ⟨"tor.DialClient", "url.Parse", "t.proxy", ["!(!addr.Addr().IsGlobalUnicast())", "!(port == 0 || port == 1 || port == 22 || port == 25)", "!(t.proxy == \"\")"]⟩,
-  ⟨"tor.DialClient", "proxy.FromURL", "u, proxy.Direct", ["!(!addr.Addr().IsGlobalUnicast())", "!(port == 0 || port == 1 || port == 22 || port == 25)", "!(t.proxy == \"\")", "!(err != nil)"]⟩,
-  ⟨"tor.DialClient", "d.DialContext", "ctx2, \"tcp\", addr.String()", ["!(!addr.Addr().IsGlobalUnicast())", "!(port == 0 || port == 1 || port == 22 || port == 25)", "!(t.proxy == \"\")", "!(err != nil)", "!(err != nil)", "!(!ok)"]⟩,
+  ⟨"tor.DialClient", "dialer.DialContext", "ctx, \"tcp\", addr.String()", ["addr.Addr().IsGlobalUnicast()", "!(port == 0 || port == 1 || port == 22 || port == 25)", "t.proxy == \"\""]⟩,
+  ⟨"tor.DialClient", "url.Parse", "t.proxy", ["addr.Addr().IsGlobalUnicast()", "!(port == 0 || port == 1 || port == 22 || port == 25)", "!(t.proxy == \"\")"]⟩,
+  ⟨"tor.DialClient", "proxy.FromURL", "u, proxy.Direct", ["addr.Addr().IsGlobalUnicast()", "!(port == 0 || port == 1 || port == 22 || port == 25)", "!(t.proxy == \"\")", "!(err != nil)"]⟩,
+  ⟨"tor.DialClient", "d.DialContext", "ctx2, \"tcp\", addr.String()", ["addr.Addr().IsGlobalUnicast()", "!(port == 0 || port == 1 || port == 22 || port == 25)", "!(t.proxy == \"\")", "!(err != nil)", "!(err != nil)", "ok"]⟩,
   ⟨"tor.GetTorrent", "nurl.Parse", "url", []⟩,
   ⟨"tor.GetTorrent", "httpclient.Get", "\"\", proxy", ["!(err != nil)", "!(err != nil)"]⟩,
   ⟨"tracker.announceUDP", "dialer.DialContext", "ctx, prot, net.JoinHostPort(url.Hostname(), url.Port())", ["prox == \"\""]⟩,
